@@ -128,10 +128,14 @@ func newAltInst(id int) *altInst {
 	mem := make([]byte, 1<<17) // banks 0..1
 	rd := func(a uint32) byte { return mem[a&0x1FFFF] }
 	wr := func(a uint32, v byte) { mem[a&0x1FFFF] = v }
-	c.Bus.AttachReader(0, 0xFFFFFF, rd)
-	c.Bus.AttachWriter(0, 0xFFFFFF, wr)
+	// only banks $00-$01 are attached: everything above is open bus (the CPU's own last bus value)
+	c.Bus.AttachReader(0, 0x01FFFF, rd)
+	c.Bus.AttachWriter(0, 0x01FFFF, wr)
 	prog := []byte{0xC2, 0x30, 0xA9, byte(2 + id%3), 0x00, 0xA2, byte(id), 0x02, 0xA0, 0x00, 0x03, 0x54, 0x01, 0x00,
-		0xE2, 0x30, 0xA9, byte(id), 0x85, 0x10, 0xE6, 0x10, 0xA5, 0x10, 0x48, 0x68, 0x80, 0xFE}
+		0xE2, 0x30, 0xA9, byte(id), 0x85, 0x10, 0xE6, 0x10, 0xA5, 0x10, 0x48, 0x68,
+		0xAF, byte(id), 0x00, 0x40, 0x85, 0x12, // LDA $4000xx (open bus) ; STA $12
+		0xAF, 0x34, 0x12, 0x7E, 0x85, 0x13, // LDA $7E1234 (open bus) ; STA $13
+		0x80, 0xFE}
 	copy(mem[0x8000:], prog)
 	for i := 0x200; i < 0x400; i++ {
 		mem[i] = byte(i + id)
@@ -251,7 +255,7 @@ func statelessDigest(id int) int {
 		p3, e3 := exhirom.BusAddressToPak(a)
 		p4, e4 := sa1rom.PakAddressToBus(a)
 		c := color15.Color(a).MulDiv(uint8(i), uint8(i%255+1))
-		acc = digest(acc, p1, e1 == nil, p2, e2 == nil, p3, e3 == nil, p4, e4 == nil, uint16(c))
+		acc = digest(acc, p1, fmt.Sprint(e1), p2, fmt.Sprint(e2), p3, fmt.Sprint(e3), p4, fmt.Sprint(e4), uint16(c))
 	}
 	return acc
 }
